@@ -458,12 +458,24 @@ def emit(c, ref, res):
 
 
 # ---------------------------------------------------------------- run
+def has_fstring(s):
+    """Python starts an f-string somewhere on the line (FSTRING_START is emitted even when the literal is
+    unterminated and tokenize then raises)."""
+    try:
+        for t in tokenize.tokenize(io.BytesIO(s.encode('utf-8')).readline):
+            if tokenize.tok_name[t.type].startswith('FSTRING'):
+                return True
+    except Exception:
+        pass
+    return False
+
+
 def excluded(s, ref):
     """Inputs outside the model's stated boundary (never produced on purpose, filtered to be safe)."""
+    if has_fstring(s):
+        return True
     if not isinstance(ref, str) and any(k not in KINDS for k, _ in ref):
-        return True       # f-strings
-    if re.search(r'(?i)(?<![A-Za-z0-9_])(f|fr|rf)[\'"]', s):
-        return True       # f-string start (possibly unterminated)
+        return True
     if re.match(r'^[ \t\f]*#.*?coding[:=]', s):
         return True       # PEP 263 cookie
     return False
@@ -473,9 +485,9 @@ def run(ctx):
     out = common.Outcome()
     out.proof = common.proof_status(FAMILY, PROPFILE)
     rng = ctx.rng
-    n_expr = ctx.scale(1600, 26000)
-    n_mal = ctx.scale(900, 14000)
-    n_val = ctx.scale(600, 8000)
+    n_expr = ctx.scale(5000, 90000)
+    n_mal = ctx.scale(3000, 50000)
+    n_val = ctx.scale(2000, 30000)
     cases, metas, seen = [], [], set()
     stats = {'expr': 0, 'malformed-tokens': 0, 'malformed-chars': 0, 'malformed-number': 0, 'tokenizable': 0,
              'token_error': 0, 'map_hits_a_name': 0, 'swap_or_chain': 0, 'non_identifier_replacement': 0,
@@ -546,12 +558,16 @@ def run(ctx):
                   [{'s': m_['s'], 'm': m_['m']} for m_ in metas[n_expr:n_expr + 2]]
     out.extra = {'input_distribution': stats,
                  'source_hashes': common.source_hashes(['sfc_models/utils.py'])}
-    axioms = sorted({a for l in (out.proof.get('assumptions') or {}).values() if l for a in l})
+    ax = {a for l in (out.proof.get('assumptions') or {}).values() if l for a in l}
+    reals = sorted(a for a in ax if '.' in a and not a.startswith('PrimFloat'))
+    prims = sorted(a for a in ax if a not in reals)
     out.trusted_base = ['Coq 8.16.1 kernel + vm_compute',
                         'hand-written model coq/Lex/Lexer.v, Untok.v (tied to tokenize/untokenize and utils.py by this correspondence on every run)',
                         "Python's parser is a function of the token sequence (parsing the renamed text gives the renamed AST): "
                         "trusted for C13_value, exercised by the value oracle with eval()",
-                        'standard-library axioms in Print Assumptions (C13_value only, from Coq Reals): ' + (', '.join(axioms) or 'none')]
+                        'Coq standard-library axioms of the Reals (C13_value, C13_merge_refuted only): ' + (', '.join(reals) or 'none'),
+                        'primitive float operations of the kernel (C13_value_float only): ' + (', '.join(prims) or 'none'),
+                        'all lexer / untokenize / re-lexing theorems are closed under the global context']
     out.assumptions = ['inputs are one line of ASCII without NUL/CR/LF; f-strings and PEP 263 coding-cookie comment lines are outside the model',
                        'the lookup is a dict with str keys and str values',
                        'the re-lexing theorem needs ops_safe (no operator token that fuses with its successor: a* *b -> a **b) '
